@@ -7,7 +7,7 @@ META = {
     'technique': 'Lean 4 theorems about the tortoise/hare loop of resolveSymlink over ALL graphs and depths (termination, ok iff first non-symlink within D hops, '
                  'never a wrong node, not-found, cycle-or-depth otherwise, reported cycles are real, Stat meets the chain-walk specification, outside-root links get no node) '
                  '+ exhaustive correspondence of the model with real image views built by image.FromV1Image',
-    'design_ref': 'DESIGN.md §5 C17',
+    'design_ref': 'DESIGN.md §4 (section of C17), §5 (defects), §7 (seeded changes)',
     'text': 'Kernel-checked, unbounded theorems for the model of FS.resolveSymlink/Stat/Open/ReadDir and of handleSymlink/TargetOutsideRoot. The model is tied to the Go code by '
             'building real two-layer images for every symlink graph on up to 5 named entries (file / dir / missing / deleted by the later layer / relative or absolute link to any entry) '
             'x MaxSymlinkDepth 0..6 (thorough: 559 630 graphs, all of them) or a seeded 3 000-graph sample with longer chains, noisy link spellings and outside-root targets (quick), and '
